@@ -2,3 +2,6 @@ import Props.C18
 #print axioms C18.reorder_preserves_env
 #print axioms C18.unique_binding
 #print axioms C18.alias_collision_counterexample
+#print axioms C18.removal_preserves_env
+#print axioms C18.shadowed_import_removable
+#print axioms C18.import_rewrite_check_sound
